@@ -29,6 +29,18 @@ Proof.
 Qed.
 Print Assumptions something_wrong_is_red.
 
+(* "the run is aborted" includes a hook (at any level, after_all included) or a cleanup-free passing run in which a
+   hook calls context.abort() without raising: the event EAbort is bad, so the run is red *)
+Theorem a_hook_that_aborts_the_run_makes_it_red :
+  forall cfg fs rs verdict ab evs h k,
+    run_model cfg fs = (rs, verdict, ab, evs) -> In (EAbort h k) evs -> verdict = true.
+Proof.
+  exact (fun cfg fs rs v ab evs h k H Hin =>
+           eq_trans (verdict_iff_bad cfg fs rs v ab evs H)
+                    (proj2 (existsb_exists bad evs) (ex_intro _ (EAbort h k) (conj Hin eq_refl)))).
+Qed.
+Print Assumptions a_hook_that_aborts_the_run_makes_it_red.
+
 (* a de-selected scenario contributes no event besides its announcement, and cannot fail *)
 Theorem deselected_scenario_cannot_fail :
   forall cfg st id all_steps oe eff own,
@@ -51,7 +63,7 @@ Print Assumptions feature_failed_iff.
 
 (* non-vacuity: concrete programs on both sides of the equivalence *)
 Definition ex_cfg : cfgdata :=
-  mkCfgData false false true TTrue [HBeforeAll; HAfterScenario] [] [] 99 false None.
+  mkCfgData false false true TTrue [HBeforeAll; HAfterScenario] [] [] 99 false None [].
 Definition ex_feature (k : skind) : feature :=
   mkFeature 1 [] None [FItem (SScen (mkScen 2 [] [mkStep KPass 1; mkStep k 2; mkStep KPass 3]))].
 
@@ -61,3 +73,11 @@ Example green_run : snd (fst (fst (run_case (ex_cfg, [ex_feature KPass])))) = fa
 Proof. vm_compute. reflexivity. Qed.
 Example abort_only_run : snd (fst (fst (run_case (ex_cfg, [ex_feature KAbort])))) = true.
 Proof. vm_compute. reflexivity. Qed.
+
+(* every step passes, nothing raises; the after_all hook (or a scenario-level hook) calls context.abort(): red *)
+Example aborted_at_the_very_end_is_red :
+  let cfg h k := mkCfgData false false true TTrue [HBeforeAll; HAfterAll; HAfterScenario] [] [] 99 false None [(h, k)] in
+  snd (fst (fst (run_case (cfg HAfterAll 0, [ex_feature KPass])))) = true /\
+  snd (fst (fst (run_case (cfg HAfterScenario 2, [ex_feature KPass])))) = true /\
+  snd (fst (fst (run_case (cfg HAfterScenario 7, [ex_feature KPass])))) = false.
+Proof. vm_compute. repeat split. Qed.
